@@ -266,9 +266,9 @@ theorem seekRead_repaired_complete (A : AEAD) (hA : ∀ k n m, (A.sealSeg k n m)
 /-! ## tink-go's sequential reader -/
 
 theorem seqLoop_prefix (A : AEAD) (key : Nat) (pre' : Bytes) (pre : Bytes) (segs : List Bytes) (ideal : IdealFor A key pre segs)
-    (k' : Nat) (hk' : k' = key ∨ k' ≠ key) (css : Nat) :
+    (k' : Nat) (hk' : k' = key ∨ k' ≠ key) (css : Nat) (guard : Bool) :
     ∀ (fuel j : Nat) (rest : Bytes), j ≤ segs.length →
-      match seqLoop A k' pre' css fuel j rest (segs.take j).flatten with
+      match seqLoop A k' pre' css guard fuel j rest (segs.take j).flatten with
       | .ok out => IsPrefix out segs.flatten
       | .err sofar => IsPrefix sofar segs.flatten := by
   intro fuel
@@ -285,7 +285,7 @@ theorem seqLoop_prefix (A : AEAD) (key : Nat) (pre' : Bytes) (pre : Bytes) (segs
       · rw [ideal.other_keys _ hk] at ho; cases ho
     rw [seqLoop]
     by_cases h1 : (rest.isEmpty || (j != 0 && rest.length == 1)) = true
-    · simp only [h1, if_true]; exact take_flatten_prefix segs j
+    · simp only [h1, if_true]; cases guard <;> exact take_flatten_prefix segs j
     · simp only [h1, if_false]
       by_cases h2 : rest.length ≤ (if j = 0 then css - hdrLen else css)
       · simp only [h2, if_true]
@@ -309,8 +309,8 @@ theorem seqLoop_prefix (A : AEAD) (key : Nat) (pre' : Bytes) (pre : Bytes) (segs
 tink-go's sequential reader delivers is a prefix of the plaintext that was written. (It CAN end cleanly
 on a strict prefix — see the negation witnesses.) -/
 theorem seqRead_prefix (A : AEAD) (key : Nat) (pre : Bytes) (segs : List Bytes) (keyOf : Bytes → Nat)
-    (ideal : IdealFor A key pre segs) (fixEof : Bool) (css : Nat) (ct : Bytes) :
-    match seqRead A keyOf fixEof css ct with
+    (ideal : IdealFor A key pre segs) (fixEof : Bool) (css : Nat) (ct : Bytes) (guard : Bool) :
+    match seqRead A keyOf fixEof css ct guard with
     | .ok out => IsPrefix out segs.flatten
     | .err sofar => IsPrefix sofar segs.flatten := by
   unfold seqRead
@@ -320,8 +320,64 @@ theorem seqRead_prefix (A : AEAD) (key : Nat) (pre : Bytes) (segs : List Bytes) 
     by_cases h2 : (decide (ct.length < hdrLen) || ct.headD 0 != 40) = true
     · rw [if_pos h2]; exact ⟨segs.flatten, rfl⟩
     · rw [if_neg h2]
-      have := seqLoop_prefix A key ((ct.drop 33).take 7) pre segs ideal (keyOf ((ct.drop 1).take 32)) (Decidable.em _) css
+      have := seqLoop_prefix A key ((ct.drop 33).take 7) pre segs ideal (keyOf ((ct.drop 1).take 32)) (Decidable.em _) css guard
         (ct.length + 2) 0 (ct.drop hdrLen) (Nat.zero_le _)
       simpa using this
+
+/-- The guarded sequential reader ends without error only behind a segment that opened under the
+last-segment flag — and under an ideal AEAD that is the last segment of the written stream. -/
+theorem seqLoop_guarded_complete (A : AEAD) (key : Nat) (pre' : Bytes) (pre : Bytes) (segs : List Bytes) (ideal : IdealFor A key pre segs)
+    (k' : Nat) (hk' : k' = key ∨ k' ≠ key) (css : Nat) :
+    ∀ (fuel j : Nat) (rest out : Bytes), j ≤ segs.length →
+      seqLoop A k' pre' css true fuel j rest (segs.take j).flatten = .ok out → out = segs.flatten := by
+  intro fuel
+  induction fuel with
+  | zero => intro j rest out _ h; simp [seqLoop] at h
+  | succ fuel ih =>
+    intro j rest out hj h
+    have hopen : ∀ (l : Bool) (c p : Bytes), A.openSeg k' ⟨pre', j, l⟩ c = some p →
+        j < segs.length ∧ p = segs.getD j [] ∧ l = decide (j + 1 = segs.length) := by
+      intro l c p ho
+      rcases hk' with hk | hk
+      · rw [hk] at ho
+        obtain ⟨_, hidx, hlast, hm, _⟩ := ideal.only_sealed _ _ _ ho
+        exact ⟨hidx, hm, hlast⟩
+      · rw [ideal.other_keys _ hk] at ho; cases ho
+    rw [seqLoop] at h
+    by_cases h1 : (rest.isEmpty || (j != 0 && rest.length == 1)) = true
+    · simp [h1] at h
+    · simp only [h1, if_false] at h
+      by_cases h2 : rest.length ≤ (if j = 0 then css - hdrLen else css)
+      · simp only [h2, if_true] at h
+        cases ho : A.openSeg k' ⟨pre', j, true⟩ rest with
+        | none => rw [ho] at h; cases h
+        | some p =>
+          rw [ho] at h
+          obtain ⟨hjl, hp, hl⟩ := hopen _ _ _ ho
+          have hlast : j + 1 = segs.length := by simpa using hl.symm
+          have h' : (segs.take j).flatten ++ p = out := by simpa using h
+          rw [← h', hp, ← take_succ_flatten segs j hjl, hlast, List.take_length]
+      · simp only [h2, if_false] at h
+        cases ho : A.openSeg k' ⟨pre', j, false⟩ (rest.take (if j = 0 then css - hdrLen else css)) with
+        | none => rw [ho] at h; cases h
+        | some p =>
+          rw [ho] at h
+          obtain ⟨hjl, hp, _⟩ := hopen _ _ _ ho
+          simp only at h
+          rw [hp, ← take_succ_flatten segs j hjl] at h
+          exact ih (j + 1) _ out (by omega) h
+
+/-- **completeness of the repaired sequential path** (envelope and cut-stream repairs both present): a read
+that ends without error has delivered exactly what was written. -/
+theorem seqRead_guarded_complete (A : AEAD) (key : Nat) (pre : Bytes) (segs : List Bytes) (keyOf : Bytes → Nat)
+    (ideal : IdealFor A key pre segs) (css : Nat) (ct out : Bytes)
+    (h : seqRead A keyOf true css ct true = .ok out) : out = segs.flatten := by
+  unfold seqRead at h
+  simp only [Bool.not_true, Bool.and_false, Bool.false_eq_true, if_false] at h
+  by_cases h2 : (decide (ct.length < hdrLen) || ct.headD 0 != 40) = true
+  · rw [if_pos h2] at h; cases h
+  · rw [if_neg h2] at h
+    exact seqLoop_guarded_complete A key ((ct.drop 33).take 7) pre segs ideal (keyOf ((ct.drop 1).take 32)) (Decidable.em _) css
+      (ct.length + 2) 0 (ct.drop hdrLen) out (Nat.zero_le _) (by simpa using h)
 
 end Pithos.Tink
